@@ -23,6 +23,18 @@ pub fn run(_sub: &str, opts: &Opts, w: &mut dyn Write) {
     if rep % 2 == 0 { c.regs[4] = *rng.pick(&SPS) as u32; }
     run_case("c06", &c, w);
   }}}
+  // the same boundary placements with another ROM bank mapped: the part of the instruction at or above 0x4000 must come
+  // from the bank that is mapped, through the slice as well as through the straddling-fetch path
+  for b0 in 0..=255u16 { for &ip in [0x3ffdu16, 0x3ffe, 0x3fff, 0x4000, 0x7ffd, 0x7ffe].iter() { for bank in [2usize, 3] {
+    idx += 1;
+    if idx % nshards != shard { continue; }
+    let b1 = if b0 == 0xcb { rng.u8() } else { byte(&mut rng) };
+    let b2 = byte(&mut rng);
+    let mut c = gen_case(&mut rng, [b0 as u8, b1, b2], ip, (0x03, 1, 3));
+    for e in c.rompatch.iter_mut() { if e.0 >= 0x4000 { e.0 = 0x4000 * bank + (e.0 & 0x3fff); } }
+    c.pre.insert(0, (0x2100, bank as u8));
+    run_case("c06", &c, w);
+  }}}
   // control instructions: all displacements / targets, both flag outcomes
   let ctl: [u8; 33] = [0x18, 0x20, 0x28, 0x30, 0x38, 0xc2, 0xc3, 0xca, 0xd2, 0xda, 0xe9, 0xc4, 0xcc, 0xcd, 0xd4, 0xdc,
     0xc0, 0xc8, 0xc9, 0xd0, 0xd8, 0xd9, 0xc7, 0xcf, 0xd7, 0xdf, 0xe7, 0xef, 0xf7, 0xff, 0x76, 0x10, 0xfb];
